@@ -163,6 +163,33 @@ def run(F, rep):
         raise AnalysisBroken('analyseModel: the branch of the variable of integration vanished')
     clears = [a for a in walk(br) if a.get('k') == 'Bin' and a.get('op') == '=' and render(a['c'][0]).endswith('mIsExternal') and a['c'][1].get('k') == 'Bool' and not a['c'][1].get('v')]
     rep.check(bool(clears), 'C20.V1', 'voi-unmarked', am.where(cites[0]), 'the variable of integration is reported as unusable but stays marked external', 'mIsExternal cleared in the same branch')
+    # the clearing is unconditional within that branch: whichever member of the class was marked, it is the class' internal variable that carries the flag
+    for a in clears:
+        inner = []
+        for anc in am.ancestors(a):
+            if anc is br:
+                break
+            if anc.get('k') in ('If', 'For', 'While', 'Do', 'RangeFor', 'Switch', 'Cond') or (anc.get('k') == 'Bin' and anc.get('op') in ('&&', '||')):
+                inner.append(anc)
+        rep.check(not inner, 'C20.V1', 'voi-unmarked-unconditionally', am.where(a),
+                  'the clearing of mIsExternal in the branch of the variable of integration is itself conditional (`%s`): when the condition is false the variable of integration stays published as an EXTERNAL variable although the message says it cannot be one'
+                  % (render(role(inner[0], 'cond'))[:60] if inner and role(inner[0], 'cond') is not None else (inner[0].get('k') if inner else '')), 'cleared on every path through the branch')
+
+    rep.rule('C20.F1', 'a variable of another model that is registered as external is ignored, not analysed: in the marking loop every internalVariable(...) call (which creates and registers an internal variable when none exists) is dominated by the test that the variable belongs to the model being analysed')
+    mloops = [l for l in am.walk() if l.get('k') == 'RangeFor' and render(role(l, 'range')).endswith('mExternalVariables')]
+    if not mloops:
+        raise AnalysisBroken('marking loop over mExternalVariables vanished')
+    ivc = [c for c in walk(role(mloops[0], 'body')) if c.get('k') == 'Call' and c.get('fn') == 'internalVariable']
+    if not ivc:
+        raise AnalysisBroken('marking loop: no internalVariable(...) call')
+    vname = v0['n']
+    for c in ivc:
+        rc = ff(am).rendered_conds_at(c) or set()
+        same = any((t is False and cnd.replace(' ', '') in ('owningModel(%s)!=model' % vname, 'model!=owningModel(%s)' % vname))
+                   or (t is True and cnd.replace(' ', '') in ('owningModel(%s)==model' % vname, 'model==owningModel(%s)' % vname)) for cnd, t in rc)
+        rep.check(same, 'C20.F1', 'same-model-before|%s' % render(c)[:50], am.where(c),
+                  '`%s` is evaluated before / without the test owningModel(%s) == model: for a variable of another model it registers a new internal variable in the model being analysed (an extra constant, or an "unknown type" error), although the message says the variable is ignored'
+                  % (render(c)[:50], vname), 'only for variables of the analysed model')
 
     rep.rule('C20.R1', 'isStateRateBased marks an equation as checked BEFORE it descends into the equation\'s dependencies (user-supplied dependencies of external variables can be cyclic: a depends on b, b on a)')
     isr = F.fn1('Analyser::AnalyserImpl::isStateRateBased')
